@@ -52,6 +52,7 @@ func runC04(c *Ctx) {
 	R.Rules["T.rest"] = "after a frame has been taken (delivered or rejected) the pending buffer is exactly the bytes that followed it: same end, start advanced by the frame's length; it is reset to empty only when the frame was the whole buffer"
 	R.Rules["T.stop"] = "extraction stops without error only when the pending buffer holds no complete frame: fewer than three bytes, no leading delimiter, or no further delimiter up to its end (so a message is available as soon as its closing delimiter has arrived)"
 	R.Rules["S.fastpath"] = "the fast path is taken only with an empty pending buffer, hands the whole read to the decoder as one frame, leaves the buffer untouched, and its single-frame test is exact: the read ends with a delimiter and the second delimiter of the read is its last byte (closure: counts 0x7e, true at the second)"
+	R.Rules["S.every-read"] = "every Read that returned at least one byte reaches the extractor: each test of the byte count that stands between the Read and the parse call sends every n >= 1 towards the parse call"
 	R.Rules["S.reader-window"] = "the reader hands the extractor exactly the bytes the last Read returned (buffer[:n])"
 	un := c.P.Method("service", "packageParse", "unpack")
 	if un == nil {
@@ -478,6 +479,7 @@ func runC04(c *Ctx) {
 		}
 		R.Add("S.reader-window", "connection.reader", "", st, d)
 	}
+	c.everyReadParsed()
 	R.Require("T.frame", 1, "")
 	R.Require("T.rest", 3, "")
 	R.Require("T.stop", 2, "")
@@ -593,4 +595,154 @@ func (c *Ctx) countingClosure(mc *ssa.MakeClosure) (bool, string) {
 		return false, "closure has no return"
 	}
 	return ok, d
+}
+
+// everyReadParsed: between the Read and the call that hands the window to the extractor, every branch that decides whether
+// the extractor is reached and that looks at the byte count must let every count >= 1 through (a test such as n > 1
+// drops one-byte reads: a lone delimiter disappears from the stream).
+func (c *Ctx) everyReadParsed() {
+	R := c.R
+	reader := c.P.Method("service", "connection", "reader")
+	if reader == nil {
+		R.Fatal("anchor connection.reader not found")
+		return
+	}
+	fam := map[*ssa.Function]bool{}
+	for _, f := range c.familyOf(reader) {
+		fam[f] = true
+	}
+	nReads := 0
+	for f := range fam {
+		for _, b := range f.Blocks {
+			for _, ins := range b.Instrs {
+				rd, isC := ins.(*ssa.Call)
+				if !isC {
+					continue
+				}
+				if name, _ := callMethodName(rd); name != "Read" {
+					continue
+				}
+				var n ssa.Value
+				for _, ref := range *rd.Referrers() {
+					if ex, isEx := ref.(*ssa.Extract); isEx && ex.Index == 0 {
+						n = ex
+					}
+				}
+				// blocks that hand the window on
+				targets := map[*ssa.BasicBlock]bool{}
+				for _, b2 := range f.Blocks {
+					for _, i2 := range b2.Instrs {
+						if call, ok := i2.(*ssa.Call); ok {
+							if sc := call.Call.StaticCallee(); sc != nil && (sc.Name() == "parse" && c.P.IsRepoPkg(sc.Pkg) || fam[sc] && sc != f) {
+								targets[b2] = true
+							}
+						}
+					}
+				}
+				if len(targets) == 0 {
+					continue
+				}
+				nReads++
+				key := shortFn(f) + " / every read of one byte or more is parsed"
+				if n == nil {
+					R.Add("S.every-read", key, c.P.RelPos(rd.Pos()), report.Violated, "the byte count of the Read is not used")
+					continue
+				}
+				reach := func(from *ssa.BasicBlock) bool {
+					seen := map[*ssa.BasicBlock]bool{b: true}
+					var walk func(x *ssa.BasicBlock) bool
+					walk = func(x *ssa.BasicBlock) bool {
+						if targets[x] {
+							return true
+						}
+						if seen[x] {
+							return false
+						}
+						seen[x] = true
+						for _, s := range x.Succs {
+							if walk(s) {
+								return true
+							}
+						}
+						return false
+					}
+					return walk(from)
+				}
+				// gates: conditional branches reachable from the Read from which one side reaches the hand-over and the other does not
+				st, d := report.Discharged, ""
+				gates := 0
+				seen := map[*ssa.BasicBlock]bool{}
+				var visit func(x *ssa.BasicBlock)
+				visit = func(x *ssa.BasicBlock) {
+					if seen[x] {
+						return
+					}
+					seen[x] = true
+					if iff, isIf := x.Instrs[len(x.Instrs)-1].(*ssa.If); isIf && len(x.Succs) == 2 && !targets[x] {
+						t, e := reach(x.Succs[0]), reach(x.Succs[1])
+						if t != e {
+							if cmp, isCmp := iff.Cond.(*ssa.BinOp); isCmp && (cmp.X == n || cmp.Y == n) {
+								gates++
+								k, isK := constInt(cmp.Y)
+								nLeft := true
+								if cmp.Y == n {
+									k, isK = constInt(cmp.X)
+									nLeft = false
+								}
+								if !isK {
+									st, d = report.Undecided, "the byte count is compared with a value that is not a constant at "+c.P.RelPos(iff.Cond.Pos())
+								} else {
+									for _, v := range []int64{1, 2, 3, 1 << 20} {
+										a, bb := v, k
+										if !nLeft {
+											a, bb = k, v
+										}
+										var res bool
+										switch cmp.Op {
+										case token.GTR:
+											res = a > bb
+										case token.GEQ:
+											res = a >= bb
+										case token.LSS:
+											res = a < bb
+										case token.LEQ:
+											res = a <= bb
+										case token.EQL:
+											res = a == bb
+										case token.NEQ:
+											res = a != bb
+										}
+										if res != t {
+											st, d = report.Violated, fmt.Sprintf("a Read that returned %d byte(s) does not reach the extractor (test at %s): the bytes are dropped from the stream", v, c.P.RelPos(iff.Cond.Pos()))
+											break
+										}
+									}
+								}
+							}
+						}
+					}
+					if targets[x] {
+						return
+					}
+					for _, s := range x.Succs {
+						if s != b {
+							visit(s)
+						}
+					}
+				}
+				for _, s := range b.Succs {
+					visit(s)
+				}
+				if len(b.Succs) == 0 || targets[b] {
+					// straight-line: nothing stands between
+				}
+				R.Add("S.every-read", key, c.P.RelPos(rd.Pos()), st, d)
+				R.Notes["reader_gates_on_byte_count"] = gates
+			}
+		}
+	}
+	if nReads == 0 {
+		R.Fatal("S.every-read: no Read followed by a hand-over to the extractor found in the reader family")
+	}
+	R.Require("S.every-read", 1, "")
 }
